@@ -359,7 +359,11 @@ func (g *docGen) render(n *cnode) string {
 		}
 	case "EMB":
 		m := g.marker()
-		switch g.pick("youtube", "vimeo", "nocookie", "twitter-iframe") {
+		switch g.pick("youtube", "vimeo", "nocookie", "twitter-iframe", "yt-object", "yt-object-param") {
+		case "yt-object":
+			return fmt.Sprintf(`<object type="application/x-shockwave-flash" data="https://www.youtube.com/v/m%d" width="400" height="300"></object>`, m)
+		case "yt-object-param":
+			return fmt.Sprintf(`<object width="400" height="300"><param name="movie" value="https://www.youtube.com/v/m%d"><param name="allowFullScreen" value="true"></object>`, m)
 		case "vimeo":
 			return fmt.Sprintf(`<iframe src="https://player.vimeo.com/video/m%d"%s></iframe>`, m, g.noiseAttrs())
 		case "nocookie":
@@ -385,9 +389,12 @@ func (g *docGen) render(n *cnode) string {
 	case "FIG":
 		m := g.marker()
 		img := fmt.Sprintf(`<img src="/i/m%d.png"%s>`, m, g.noiseAttrs())
-		switch g.pick("img", "img", "noscript", "picture") {
+		switch g.pick("img", "img", "noscript", "picture", "noscriptonly") {
 		case "noscript":
 			img = fmt.Sprintf(`<img src="data:image/gif;base64,R0lGOD"><noscript><img src="/i/m%d.png"></noscript>`, m)
+		case "noscriptonly":
+			// the visible place holder is no image at all; the real one only exists inside noscript
+			img = g.pick(`<div class="zqlazy"></div>`, `<canvas width="4" height="3"></canvas>`, ``) + fmt.Sprintf(`<noscript><img src="/i/m%d.png"></noscript>`, m)
 		case "picture":
 			junk := g.pick("", `<span hidden>`+g.words(2)+`</span>`, `<!-- `+g.words(2)+` -->`, `<script>var `+g.words(1)+`;</script>`)
 			img = fmt.Sprintf(`<picture%s><source srcset="/i/m%d-s.webp"%s>%s<img src="/i/m%d.png"%s></picture>`, g.noiseAttrs(), m, g.noiseAttrs(), junk, m, g.noiseAttrs())
